@@ -1485,3 +1485,338 @@ Proof.
   split; [|exact Hw].
   apply img_ok_chain; [exact Hw|]. apply rejuvenate_child_is_view.
 Qed.
+
+(* ======================================================================== *)
+(* 8. The stored ids are root indices; a child's events are exactly the     *)
+(*    root events selected by all ancestor masks                            *)
+(* ======================================================================== *)
+Definition in_range (n : nat) (l : level) : Prop :=
+  forall r, In r (f_rids (l_filt l)) -> 0 <= r < Z.of_nat n.
+
+(* the last element (the root dataset) works with the ids 0..n-1 *)
+Fixpoint root_ok (n : nat) (ls : list level) : Prop :=
+  match ls with
+  | [] => True
+  | l :: ps => match ps with
+               | [] => f_rids (l_filt l) = iota 0 n
+               | _ :: _ => root_ok n ps
+               end
+  end.
+
+Definition ids_ok (n : nat) (ls : list level) : Prop :=
+  Forall (in_range n) ls /\ root_ok n ls.
+
+Lemma child_finish_rids c p :
+  let g := l_filt (child_finish (set_filt c (retrieve (l_filt c))) p) in
+  f_rids g = f_rids (l_filt c)
+  \/ f_rids g = select (f_all (l_filt p)) (f_rids (l_filt p)).
+Proof.
+  destruct (child_finish_filter c p) as [[[_ [_ Hr]] _]|[Hr _]].
+  - left. cbv zeta. rewrite Hr. apply retrieve_rids.
+  - right. exact Hr.
+Qed.
+
+Lemma refresh_up_ids n : forall ls, ids_ok n ls -> ids_ok n (refresh_up ls).
+Proof.
+  induction ls as [|c ps IH]; intros [Hr Ho]; [split; assumption|].
+  inversion Hr as [|? ? Hc Hps]; subst.
+  destruct ps as [|p ps'].
+  - split; [constructor; [exact Hc|constructor]|exact Ho].
+  - rewrite refresh_up_cons2.
+    destruct (IH (conj Hps Ho)) as [IHr IHo].
+    remember (refresh_up (p :: ps')) as R eqn:E.
+    destruct R as [|q qs].
+    + pose proof (refresh_up_length (p :: ps')) as Hl.
+      rewrite <- E in Hl. discriminate.
+    + split; [|exact IHo].
+      constructor; [|exact IHr].
+      inversion IHr as [|? ? Hq _]; subst.
+      intros r Hin. unfold in_range in *.
+      destruct (child_finish_rids c q) as [H|H]; cbv zeta in H;
+        rewrite H in Hin.
+      * now apply Hc.
+      * apply Hq. now apply select_In in Hin.
+Qed.
+
+Lemma root_ok_set_nth n ls pos l l' :
+  nth_error ls pos = Some l ->
+  f_rids (l_filt l') = f_rids (l_filt l) ->
+  root_ok n ls -> root_ok n (set_nth pos l' ls).
+Proof.
+  revert pos; induction ls as [|x ls IH]; intros pos E Hr Ho;
+    [destruct pos; discriminate|].
+  destruct pos as [|pos]; simpl in E.
+  - injection E as ->. destruct ls; simpl in *; [congruence|exact Ho].
+  - destruct ls as [|y ls']; [destruct pos; discriminate|].
+    change (root_ok n (x :: set_nth pos l' (y :: ls'))).
+    assert (Hs : root_ok n (set_nth pos l' (y :: ls'))) by (apply IH; assumption).
+    destruct pos; simpl in *; exact Hs.
+Qed.
+
+Lemma upd_level_ids n ls pos (h : level -> level) :
+  (forall l, f_rids (l_filt (h l)) = f_rids (l_filt l)) ->
+  ids_ok n ls -> ids_ok n (upd_level ls pos h).
+Proof.
+  intros Hh [Hr Ho]. unfold upd_level.
+  destruct (nth_error ls pos) as [l|] eqn:E; [|split; assumption].
+  split.
+  - apply Forall_set_nth; [exact Hr|].
+    unfold in_range. rewrite Hh.
+    rewrite Forall_forall in Hr. apply Hr. eapply nth_error_In; exact E.
+  - eapply root_ok_set_nth; [exact E|apply Hh|exact Ho].
+Qed.
+
+Lemma set_manual_rids i v l :
+  f_rids (l_filt (set_manual i v l)) = f_rids (l_filt l).
+Proof.
+  unfold set_manual.
+  destruct (Z.of_nat (length (f_manual (l_filt l))) =? 0); reflexivity.
+Qed.
+
+Lemma set_root_data_ids n ls slot d :
+  ids_ok n ls -> ids_ok n (set_root_data ls slot d).
+Proof.
+  intros [Hr Ho]. induction Hr as [|l ls Hl Hr IH]; [split; [constructor|exact I]|].
+  destruct ls as [|l' ls'].
+  - split; [constructor; [exact Hl|constructor]|exact Ho].
+  - change (set_root_data (l :: l' :: ls') slot d)
+      with (l :: set_root_data (l' :: ls') slot d).
+    destruct (IH Ho) as [IHr IHo].
+    split; [constructor; assumption|].
+    destruct (set_root_data (l' :: ls') slot d) eqn:E.
+    + destruct ls'; discriminate.
+    + exact IHo.
+Qed.
+
+Lemma root_ok_app n xs ys : ys <> [] -> (root_ok n (xs ++ ys) <-> root_ok n ys).
+Proof.
+  intros Hy. induction xs as [|x xs IH]; [reflexivity|].
+  simpl. destruct (xs ++ ys) eqn:E.
+  - destruct xs; simpl in E; [congruence|discriminate].
+  - exact IH.
+Qed.
+
+Lemma set_temp_ids n ls pos slot seed :
+  ids_ok n ls -> ids_ok n (fst (set_temp ls pos slot seed)).
+Proof.
+  intros H. unfold set_temp.
+  destruct (skipn pos ls) as [|l anc] eqn:E; [exact H|].
+  destruct (c2r anc (iota 0 (Z.to_nat (l_len l)))) as [rids|]; [|exact H].
+  set (ls1 := set_root_data ls slot _).
+  assert (H1 : ids_ok n ls1) by now apply set_root_data_ids.
+  destruct anc as [|a anc']; [exact H1|]. cbn [fst].
+  assert (Hlen : length ls1 = length ls).
+  { unfold ls1. clear. generalize (scatter (repeat (1, 0)
+       (Z.to_nat (l_len (last ls l)))) rids
+       (map (tval seed) (iota 0 (Z.to_nat (l_len l))))) as d.
+    intros d. induction ls as [|x ls IH]; [reflexivity|].
+    destruct ls as [|y ls']; [reflexivity|].
+    change (set_root_data (x :: y :: ls') slot d)
+      with (x :: set_root_data (y :: ls') slot d).
+    simpl. simpl in IH. now rewrite IH. }
+  assert (Hne : skipn pos ls1 <> []).
+  { intros Hn. apply (f_equal (@length level)) in Hn, E.
+    rewrite skipn_length in Hn, E. simpl in Hn, E. lia. }
+  destruct H1 as [Hr Ho].
+  rewrite <- (firstn_skipn pos ls1) in Hr, Ho.
+  apply Forall_app in Hr. destruct Hr as [Ha Hb].
+  apply (root_ok_app n _ _ Hne) in Ho.
+  destruct (refresh_up_ids n _ (conj Hb Ho)) as [Hb' Ho'].
+  split; [apply Forall_app; now split|].
+  apply root_ok_app; [|exact Ho'].
+  intros Hn. apply (f_equal (@length level)) in Hn.
+  rewrite refresh_up_length in Hn. destruct (skipn pos ls1); [congruence|discriminate].
+Qed.
+
+Lemma grow_ids n ls : ids_ok n ls -> ids_ok n (grow ls).
+Proof.
+  intros H. unfold grow. destruct (refresh_up_ids n ls H) as [Hr Ho].
+  destruct (refresh_up ls) as [|p ps]; [split; [constructor|exact I]|].
+  split; [|exact Ho].
+  constructor; [|exact Hr].
+  inversion Hr as [|? ? Hp _]; subst.
+  intros r Hin. apply Hp. cbn in Hin. now apply select_In in Hin.
+Qed.
+
+Theorem step_ids n st op :
+  ids_ok n (s_levels st) -> ids_ok n (s_levels (fst (step st op))).
+Proof.
+  intros H. destruct op as [[[[tag a] b] c] d]. unfold step.
+  destruct (tag =? 0).
+  { cbn [fst s_levels]. apply upd_level_ids; [reflexivity|exact H]. }
+  destruct (tag =? 1).
+  { cbn [fst s_levels]. apply upd_level_ids; [|exact H].
+    intros l. apply set_manual_rids. }
+  destruct (tag =? 2).
+  { pose proof (set_temp_ids n (s_levels st) (pos_of (s_levels st) a)
+                             (3 + Z.to_nat (b mod 2)) c H) as Ht.
+    destruct (set_temp (s_levels st) (pos_of (s_levels st) a)
+                       (3 + Z.to_nat (b mod 2)) c) as [ls' e].
+    exact Ht. }
+  destruct (tag =? 3).
+  { cbn [fst s_levels]. now apply refresh_up_ids. }
+  destruct (tag =? 4).
+  { cbn [fst s_levels]. apply upd_level_ids; [reflexivity|exact H]. }
+  destruct (tag =? 5).
+  { cbn [fst s_levels]. apply upd_level_ids; [reflexivity|exact H]. }
+  destruct (tag =? 6).
+  { cbn [fst]. destruct (Nat.leb (length (s_levels st)) MAXDEPTH);
+      cbn [s_levels]; [now apply grow_ids|exact H]. }
+  exact H.
+Qed.
+
+Lemma init_ids n cols : ids_ok n (s_levels (init n cols)).
+Proof.
+  split; [|reflexivity].
+  constructor; [|constructor]. intros r Hin. cbn in Hin.
+  apply iota_In in Hin. lia.
+Qed.
+
+Theorem run_ids n ops : forall st,
+  ids_ok n (s_levels st) -> ids_ok n (s_levels (fst (run st ops))).
+Proof.
+  induction ops as [|o ops IH]; intros st H; [exact H|].
+  cbn [run]. pose proof (step_ids n st o H) as H1.
+  destruct (step st o) as [st1 out1]. cbn [fst] in H1.
+  pose proof (IH st1 H1) as H2.
+  destruct (run st1 ops) as [st2 out2]. exact H2.
+Qed.
+
+Lemma spec_run_fst ops : forall st gs,
+  fst (spec_run st gs ops) = fst (run st ops).
+Proof.
+  induction ops as [|o ops IH]; intros st gs; [reflexivity|].
+  cbn [spec_run run]. rewrite IH.
+  destruct (step st o) as [st1 o1]. cbn [fst].
+  destruct (run st1 ops). reflexivity.
+Qed.
+
+(* suffixes of a chain *)
+Lemma rids_ok_tail c ps : rids_ok (c :: ps) -> rids_ok ps.
+Proof. destruct ps; [intros; exact I|intros [_ H]; exact H]. Qed.
+Lemma view_ok_tail c ps : view_ok (c :: ps) -> view_ok ps.
+Proof. destruct ps; [intros; exact I|intros [_ H]; exact H]. Qed.
+Lemma root_ok_tail n c p ps : root_ok n (c :: p :: ps) -> root_ok n (p :: ps).
+Proof. intros H; exact H. Qed.
+
+Lemma rids_compose n : forall anc c,
+  rids_ok (c :: anc) -> root_ok n (c :: anc) ->
+  f_rids (l_filt c) = compose_select anc (iota 0 n).
+Proof.
+  induction anc as [|p anc IH]; intros c Hr Ho; [exact Ho|].
+  destruct Hr as [Hc Hr]. rewrite Hc. cbn [compose_select]. f_equal.
+  apply IH; [exact Hr|exact Ho].
+Qed.
+
+Lemma skipn_suffix_props n k : forall ls c anc,
+  skipn k ls = c :: anc ->
+  rids_ok ls -> view_ok ls -> root_ok n ls ->
+  rids_ok (c :: anc) /\ view_ok (c :: anc) /\ root_ok n (c :: anc).
+Proof.
+  induction k as [|k IH]; intros ls c anc E Hr Hv Ho.
+  - simpl in E. subst. repeat split; assumption.
+  - destruct ls as [|x ls]; [discriminate|]. simpl in E.
+    destruct ls as [|y ls']; [destruct k; discriminate|].
+    apply (IH (y :: ls') c anc E).
+    + eapply rids_ok_tail; exact Hr.
+    + eapply view_ok_tail; exact Hv.
+    + exact Ho.
+Qed.
+
+(* For every root dataset and every history: after rejuvenate of the
+   youngest member, every member [c] of the chain (with ancestors [anc],
+   nearest first) consists of exactly the root events selected by the masks
+   of all its ancestors: its stored root ids are 0..n-1 restricted
+   successively by the ancestors' filters (without duplicates, all < n),
+   and its columns are the root's columns restricted the same way. *)
+Theorem child_events_are_root_selection :
+  forall n cols ops k c anc,
+    let st := fst (step (fst (run (init n cols) ops)) (3, 0, 0, 0, 0)) in
+    skipn k (s_levels st) = c :: anc ->
+    f_rids (l_filt c) = compose_select anc (iota 0 n)
+    /\ l_data c = map (option_map (compose_select anc)) (l_data (last anc c))
+    /\ NoDup (f_rids (l_filt c))
+    /\ (forall r, In r (f_rids (l_filt c)) -> 0 <= r < Z.of_nat n).
+Proof.
+  intros n cols ops k c anc st E.
+  set (st0 := fst (run (init n cols) ops)) in *.
+  assert (Hinv : Forall2 linv (snd (spec_run (init n cols) [mkghost [] []] ops))
+                         (s_levels st0)).
+  { unfold st0. rewrite <- (spec_run_fst ops _ [mkghost [] []]).
+    destruct (spec_run (init n cols) [mkghost [] []] ops) as [s g] eqn:Es.
+    eapply run_inv; [apply init_inv|exact Es]. }
+  assert (Hids : ids_ok n (s_levels st)).
+  { apply step_ids, run_ids, init_ids. }
+  assert (Hr : rids_ok (s_levels st)) by (eapply refresh_rids; exact Hinv).
+  assert (Hv : view_ok (s_levels st)) by apply rejuvenate_child_is_view.
+  destruct Hids as [Hrange Ho].
+  destruct (skipn_suffix_props n k _ c anc E Hr Hv Ho) as [Hr' [Hv' Ho']].
+  assert (Hin : In c (s_levels st)).
+  { rewrite <- (firstn_skipn k (s_levels st)), E. apply in_or_app. right. now left. }
+  repeat split.
+  - now apply (rids_compose n).
+  - now apply view_composes_to_root.
+  - pose proof (refresh_up_inv _ _ Hinv) as Hinv'.
+    change (refresh_up (s_levels st0)) with (s_levels st) in Hinv'.
+    destruct (In_nth_error _ _ Hin) as [j Hj].
+    destruct (Forall2_nth_error _ _ _ _ _ Hinv' Hj) as [g [_ Hg]].
+    eapply linv_NoDup; exact Hg.
+  - rewrite Forall_forall in Hrange. exact (Hrange c Hin).
+Qed.
+
+(* ---- set_temporary_feature: when does the index map raise? -------------- *)
+Lemma take_idx_iota idx : forall m,
+  take_idx idx (iota 0 m) =
+  if Nat.leb m (length idx) then Some (firstn m idx) else None.
+Proof.
+  assert (G : forall suf pre m,
+    take_idx (pre ++ suf) (iota (Z.of_nat (length pre)) m) =
+    if Nat.leb m (length suf) then Some (firstn m suf) else None).
+  { induction suf as [|v suf IH]; intros pre m.
+    - destruct m; [reflexivity|]. cbn [iota take_idx length Nat.leb].
+      rewrite Nat2Z.id, app_nil_r.
+      rewrite (proj2 (nth_error_None pre (length pre))) by lia. reflexivity.
+    - destruct m; [reflexivity|]. cbn [iota take_idx length Nat.leb firstn].
+      rewrite Nat2Z.id, nth_error_app2 by lia.
+      replace (length pre - length pre)%nat with 0%nat by lia.
+      cbn [nth_error].
+      replace (pre ++ v :: suf) with ((pre ++ [v]) ++ suf)
+        by (now rewrite <- app_assoc).
+      replace (Z.of_nat (length pre) + 1) with (Z.of_nat (length (pre ++ [v])))
+        by (rewrite app_length; simpl; lia).
+      rewrite IH. destruct (Nat.leb m (length suf)); [|reflexivity].
+      destruct (0 <=? Z.of_nat (length pre)) eqn:E; [reflexivity|lia]. }
+  intros m. exact (G idx [] m).
+Qed.
+
+(* map_indices_child2parent of the indices 0..m-1 raises IndexError exactly
+   when m exceeds the number of events the parent's filter selects *)
+Theorem c2p_error_iff (p : level) (m : nat) :
+  c2p p (iota 0 m) = None <-> (count_true (f_all (l_filt p)) < m)%nat.
+Proof.
+  unfold c2p. rewrite take_idx_iota, where_length.
+  destruct (Nat.leb m (count_true (f_all (l_filt p)))) eqn:E.
+  - apply Nat.leb_le in E. split; [discriminate|lia].
+  - apply Nat.leb_gt in E. split; [intros _; exact E|reflexivity].
+Qed.
+
+(* on a chain whose members are views of their parents (i.e. refreshed in
+   order) set_temporary_feature never raises *)
+Theorem set_temp_no_error ls pos slot seed :
+  Forall lwf ls -> view_ok (skipn pos ls) ->
+  snd (set_temp ls pos slot seed) = 0.
+Proof.
+  intros Hw Hv. unfold set_temp.
+  destruct (skipn pos ls) as [|l anc] eqn:E; [reflexivity|].
+  assert (Hw' : Forall lwf (l :: anc)).
+  { rewrite <- E. rewrite <- (firstn_skipn pos ls) in Hw.
+    apply Forall_app in Hw. exact (proj2 Hw). }
+  assert (Hc : exists R, c2r anc (iota 0 (Z.to_nat (l_len l))) = Some R).
+  { destruct anc as [|p anc']; [now eexists|].
+    inversion Hw' as [|? ? _ Hw'']; subst.
+    destruct Hv as [[Hlen _] Hv].
+    destruct (chain_c2r (p :: anc') Hw'' Hv) as [R HR].
+    rewrite Hlen, Nat2Z.id. eexists. now apply c2r_child. }
+  destruct Hc as [R HR]. rewrite HR.
+  destruct anc; reflexivity.
+Qed.
